@@ -1082,3 +1082,33 @@ LEMMAS['expand_sums'] = dict(
                ('focus',),
                ],
 )
+
+# ---- a map applied to a subsystem: the symplectic form splits into the selected qubits (compressed strings) and the rest
+_Cy = 'Compress(y, Repeat2(mask), 2 * N)'
+LEMMAS['split_acq'] = dict(
+    doc='symplectic sum = sum over the selected qubits (of the compressed strings) + sum over the unselected qubits',
+    params=[('x', 'int1'), ('y', 'int1'), ('mask', 'int1'), ('N', 'int'), ('K', 'int')],
+    requires=['len(mask) == N', '0 <= K <= N'],
+    ensures=['%s[2 * K] %% 2 == 0' % _P2, '0 <= %s[2 * K]' % _P2,
+             'AcqSum(x, y, K) == AcqSum(%s, %s, %s[2 * K] // 2) + AcqOut(x, y, mask, K)' % (_Cx, _Cy, _P2)],
+    induction='K',
+    uses=[('lemma', 'mask_index', ['Repeat2(mask)', '2 * N'])],
+    uses_step=[('lemma', 'mask_index', ['Repeat2(mask)', '2 * N']),
+               ('assert', 'Repeat2(mask)[2 * K - 2] == mask[K - 1] and Repeat2(mask)[2 * K - 1] == mask[K - 1]'),
+               ('assert', '%(P)s[2 * K - 1] == %(P)s[2 * K - 2] + b2i(mask[K - 1] != 0)' % dict(P=_P2)),
+               ('assert', '%(P)s[2 * K] == %(P)s[2 * K - 1] + b2i(mask[K - 1] != 0)' % dict(P=_P2)),
+               ('assert', 'implies(mask[K - 1] != 0, MaskIdx(Repeat2(mask), 2 * N)[%(P)s[2 * K - 2]] == 2 * K - 2 and '
+                          'MaskIdx(Repeat2(mask), 2 * N)[%(P)s[2 * K - 1]] == 2 * K - 1)' % dict(P=_P2)),
+               ('assert', 'implies(mask[K - 1] != 0, %(C)s[%(P)s[2 * K - 2]] == x[2 * K - 2] and %(C)s[%(P)s[2 * K - 1]] == x[2 * K - 1])' % dict(C=_Cx, P=_P2)),
+               ('assert', 'implies(mask[K - 1] != 0, %(C)s[%(P)s[2 * K - 2]] == y[2 * K - 2] and %(C)s[%(P)s[2 * K - 1]] == y[2 * K - 1])' % dict(C=_Cy, P=_P2)),
+               ('assert', '%(P)s[2 * K - 2] %% 2 == 0 and 0 <= %(P)s[2 * K - 2]' % dict(P=_P2)),
+               ('focus',)],
+)
+LEMMAS['acqout_ext'] = dict(
+    doc='the unselected part only reads the columns of the unselected qubits',
+    params=[('x', 'int1'), ('x2', 'int1'), ('y', 'int1'), ('y2', 'int1'), ('mask', 'int1'), ('K', 'int')],
+    requires=['forall(k, 0, K, implies(mask[k] == 0, x[2 * k] == x2[2 * k] and x[2 * k + 1] == x2[2 * k + 1] and '
+              'y[2 * k] == y2[2 * k] and y[2 * k + 1] == y2[2 * k + 1]))'],
+    ensures=['AcqOut(x, y, mask, K) == AcqOut(x2, y2, mask, K)'],
+    induction='K',
+)
